@@ -306,7 +306,8 @@ pub fn run(mut run: Run) -> i32 {
         let (k, swap) = (idx / 2, idx % 2 == 1);
         let p = polar[k / (n + polar.len())];
         let j = k % (n + polar.len());
-        let q = if j < n { pts[j] } else { polar[j - n] };
+        // (every third lattice partner is moved off the lattice: journeys to a pole from latitudes such as -12 or 47.5 round differently)
+        let q = if j < n { if j % 3 == 1 { (pts[j].0, (pts[j].1 * 0.9 - 3.0).clamp(-89.0, 89.0)) } else { pts[j] } } else { polar[j - n] };
         let (a, b) = if swap { (q, p) } else { (p, q) };
         acc.class(format!("polar lat{} first{}", p.1, !swap));
         space_pair_checks!(acc, idx, "Haversine", &Haversine, a, b, 1.0);
